@@ -33,7 +33,7 @@ fn strat() -> BoxedStrategy<TuiCase> {
                 t.sim_rounds = t.sim_rounds.max(1);
                 t.fatal = false;
             }
-            TuiCase { traces, ui, ops }
+            TuiCase { traces, ui, ops, hash_keys: None }
         })
         .boxed()
 }
@@ -156,9 +156,16 @@ fn check_frame(s: &tui::Session, step: &str, obs: &mut Obs) -> CheckResult {
 }
 
 fn test(c: &TuiCase, obs: &mut Obs) -> CheckResult {
-    WATCH_S.store(20, std::sync::atomic::Ordering::Relaxed);
+    WATCH_S.store(std::env::var("VERIF_WATCH_S").ok().and_then(|v| v.parse().ok()).unwrap_or(90), std::sync::atomic::Ordering::Relaxed);
     let mut s = tui::start(c)?;
-    s.refresh_and_draw()?;
+    match s.refresh_and_draw() {
+        Ok(()) => {}
+        Err(f) if f.sig == super::c17::LAYOUT_HANG_SIG => {
+            obs.excluded("frame not drawn: layout solver cycling (recorded C17 finding)");
+            return Ok(());
+        }
+        Err(f) => return Err(f),
+    }
     check_frame(&s, "initial frame", obs)?;
     let mut privacy_steps = 0usize;
     let mut frames_hidden = 0usize;
@@ -171,13 +178,8 @@ fn test(c: &TuiCase, obs: &mut Obs) -> CheckResult {
             let known = s.app.selected_flow == FlowId(0) || d.flows().iter().any(|(_, id)| *id == s.app.selected_flow);
             known.then(|| d.hops_for_flow(s.app.selected_flow).len())
         };
-        match s.apply(op) {
-            Ok(()) => {}
-            Err(f) if f.sig.starts_with("excluded:") => {
-                obs.excluded("command that would show a 13th column (recorded finding)");
-                continue;
-            }
-            Err(f) => return Err(Fail::new(f.sig, format!("step {i} ({op:?}): {}", f.msg))),
+        if let Err(f) = s.apply(op) {
+            return Err(Fail::new(f.sig, format!("step {i} ({op:?}): {}", f.msg)));
         }
         // expand / contract move n by exactly one step between off, 0 and the hop count
         if let (Op::Key(k @ (Cmd::ExpandPrivacy | Cmd::ContractPrivacy)), Some(hc)) = (op, hop_count) {
@@ -197,7 +199,15 @@ fn test(c: &TuiCase, obs: &mut Obs) -> CheckResult {
             );
             privacy_steps += 1;
         }
-        s.refresh_and_draw().map_err(|f| Fail::new(f.sig, format!("after step {i} ({op:?}): {}", f.msg)))?;
+        match s.refresh_and_draw() {
+            Ok(()) => {}
+            Err(f) if f.sig == super::c17::LAYOUT_HANG_SIG => {
+                // the recorded C17 finding (layout solver cycling) says nothing about privacy
+                obs.excluded("frame not drawn: layout solver cycling (recorded C17 finding)");
+                return Ok(());
+            }
+            Err(f) => return Err(Fail::new(f.sig, format!("after step {i} ({op:?}): {}", f.msg))),
+        }
         check_frame(&s, &format!("after step {i} ({op:?})"), obs)?;
         if s.app.tui_config.privacy_max_ttl.is_some() {
             frames_hidden += 1;
